@@ -34,6 +34,15 @@ tagCategoryExplicit = 0x02
 tagCategoryUntagged = 0x04
 
 
+def _printableTagId(tagId):
+    try:
+        return '%s' % (tagId,)
+
+    except ValueError:
+        # a tag ID with more digits than Python agrees to print
+        return '<tag ID too large to print>'
+
+
 class Tag(object):
     """Create ASN.1 tag
 
@@ -65,7 +74,7 @@ class Tag(object):
 
     def __repr__(self):
         representation = '[%s:%s:%s]' % (
-            self.__tagClass, self.__tagFormat, self.__tagId)
+            self.__tagClass, self.__tagFormat, _printableTagId(self.__tagId))
         return '<%s object, tag %s>' % (
             self.__class__.__name__, representation)
 
@@ -194,7 +203,8 @@ class TagSet(object):
         self.__hash = hash(self.__superTagsClassId)
 
     def __repr__(self):
-        representation = '-'.join(['%s:%s:%s' % (x.tagClass, x.tagFormat, x.tagId)
+        representation = '-'.join(['%s:%s:%s' % (x.tagClass, x.tagFormat,
+                                                 _printableTagId(x.tagId))
                                    for x in self.__superTags])
         if representation:
             representation = 'tags ' + representation
